@@ -8,6 +8,7 @@ import (
 	"fmt"
 	"strings"
 
+	"github.com/apache/arrow-go/v18/arrow/memory"
 	colarspb "github.com/open-telemetry/otel-arrow/api/experimental/arrow/v1"
 	cfgpkg "github.com/open-telemetry/otel-arrow/pkg/config"
 )
@@ -19,7 +20,7 @@ func runFraming(o opts, out *Output) {
 	r := NewRng(o.seed)
 	stats := map[string]int{}
 	var sb strings.Builder
-	sb.WriteString("Definition framing_cases : list (list call * list (N * list (N * N))) := [\n")
+	sb.WriteString("Definition framing_cases : list (list call2 * list (N * list (N * N))) := [\n")
 	ncase := 0
 	for c := 0; c < o.n; c++ {
 		g := &OGen{r: r.Fork(), Wide: r.Chance(40), Mono: monoPick(r)}
@@ -39,7 +40,18 @@ func runFraming(o opts, out *Output) {
 			options = append(options, cfgpkg.WithUint8LimitDictIndex(), cfgpkg.WithDictResetThreshold(1.0))
 			optName = "u8limit-reset"
 		}
+		var fa *faultAllocator
+		if c%5 == 2 {
+			// a failed Produce in the middle of the history: the caller's allocator refuses one allocation during the IPC write
+			// of the k-th record of the stream; nothing is emitted for that batch, the ids of the next ones go on from there
+			fa = &faultAllocator{inner: memory.NewGoAllocator()}
+			options = append(options, cfgpkg.WithAllocator(fa))
+			optName += "+refused-allocation-in-ipc-write"
+		}
 		pr := newProducerRun(options...)
+		if fa != nil {
+			pr.obs.fault = &faultObs{evObserver: evObserver{events: map[string]string{}}, alloc: fa, at: 2 + r.Intn(12)}
+		}
 		ir := newIndepReader()
 		keyIDs := map[string]int{}
 		keyOf := func(k string) int {
@@ -86,10 +98,26 @@ func runFraming(o opts, out *Output) {
 					_ = pr.p.GetAndResetStats()
 				}()
 				stats["stats_scrapes"]++
-				hist = append(hist, "ResetStats")
+				hist = append(hist, "Call ResetStats")
 				nreset++
 			}
 			res := pr.produce(data)
+			if res.Class == "error" && fa != nil && strings.Contains(res.Msg, "injected fault") {
+				stats["failed_produce_injected"]++
+				// the records Produce had reached (the failing one included): their stream producers exist, schema ids are consumed
+				var fps []string
+				for _, rec := range res.Recs {
+					fps = append(fps, fmt.Sprintf("(%d, %d)", int32(rec.PType), keyOf(rec.Key)))
+				}
+				hist = append(hist, "Failed ["+strings.Join(fps, "; ")+"]")
+				nreset++
+				// every sub-stream restarts: the ids in use so far are closed
+				for ty, sid := range curSid {
+					dead[sid] = true
+					delete(curSid, ty)
+				}
+				continue
+			}
 			if res.Class != "ok" {
 				stats["producer_"+res.Class]++
 				break
@@ -148,7 +176,7 @@ func runFraming(o opts, out *Output) {
 			if int(bar.BatchId) != len(hist)-nreset {
 				out.Violation("C12", "batch-id", fmt.Sprintf("batch id %d, expected %d", bar.BatchId, len(hist)-nreset), replay)
 			}
-			hist = append(hist, "Batch ["+strings.Join(ps, "; ")+"]")
+			hist = append(hist, "Call (Batch ["+strings.Join(ps, "; ")+"])")
 			obs = append(obs, fmt.Sprintf("(%d, [%s])", bar.BatchId, strings.Join(os, "; ")))
 			evs := map[string]int{}
 			for _, e := range res.Events {
@@ -191,11 +219,11 @@ func runFraming(o opts, out *Output) {
 	sb.WriteString("\n].\n")
 	out.Coq.WriteString(sb.String())
 	out.Coq.WriteString(`(* history = the producer's public calls: per batch the (payload type, stream key) of every record message, and the statistics
-   reads (GetAndResetStats) between them; observation = per batch (batch id, [(schema id, type)]) *)
+   reads (GetAndResetStats) between them, and the Produce calls that failed half-way with the records they had reached; observation = per batch (batch id, [(schema id, type)]) *)
 Definition pair_eqb (a b : N * N) : bool := N.eqb (fst a) (fst b) && N.eqb (snd a) (snd b).
 Definition out_eqb (a b : N * list (N * N)) : bool := N.eqb (fst a) (fst b) && list_eqb pair_eqb (snd a) (snd b).
-Definition framing_check (c : list call * list (N * list (N * N))) : bool :=
-  list_eqb out_eqb (snd (arun false ainit (fst c))) (snd c).
+Definition framing_check (c : list call2 * list (N * list (N * N))) : bool :=
+  list_eqb out_eqb (snd (arun2 false ainit (fst c))) (snd c).
 Definition framing_mismatch := Eval vm_compute in failing framing_check framing_cases.
 Print framing_mismatch.
 `)
